@@ -81,7 +81,8 @@ func TestVerifC05(t *testing.T) {
 	for _, wga := range []bool{true, false} {
 		for _, dir := range []bool{true, false} {
 			for _, same := range []bool{true, false} {
-				emit(vhgCloseVsRename(wga, dir, same))
+				emit(vhgCloseVsRename(wga, dir, same, false))
+				emit(vhgCloseVsRename(wga, dir, same, true))
 			}
 			emit(vhgRenameVsDisconnect(wga, dir))
 		}
